@@ -12,6 +12,7 @@ and leaves a state related to `vs`.
 -/
 set_option linter.unusedSimpArgs false
 set_option linter.unusedVariables false
+set_option linter.unusedSectionVars false
 namespace GeomV.C04
 open GeomV GeomV.C04.Spec
 
@@ -144,6 +145,8 @@ theorem next3_step (mp : List (List (List β))) (i j k : Nat) (v : β) (vs : Lis
 
 /-! ## the relation between closure states and remaining vertices -/
 
+variable [LT α] [DecidableLT α]
+
 mutual
 def Rel : Geom α → ItSt → List (Pt α) → Prop
   | .point p, s, vs => s = .pt ∧ (vs = [p] ∨ vs = [])
@@ -152,7 +155,7 @@ def Rel : Geom α → ItSt → List (Pt α) → Prop
   | .multiLineString ls, s, vs => ∃ i j, s = .two i j ∧ Z2 (ls.drop j) i vs
   | .polygon ls, s, vs => ∃ i j, s = .two i j ∧ Z2 (ls.drop j) i vs
   | .multiPolygon mp, s, vs => ∃ i j k, s = .three i j k ∧ Z3 (mp.drop k) i j vs
-  | .bounds mn mx, s, vs => ∃ i, s = .one i ∧ vs = [mn, ⟨mx.x, mn.y⟩, mx, ⟨mn.x, mx.y⟩].drop i
+  | .bounds mn mx, s, vs => ∃ i, s = .one i ∧ vs = (vertices (.bounds mn mx)).drop i
   | .collection gs, s, vs => ∃ i j p, s = .coll i j p ∧ RelAt gs j i p vs
   | .nil, _, _ => False
 /-- member `j` of `gs` has returned `i` vertices, its closure `p` is related to the rest of them -/
@@ -296,12 +299,16 @@ theorem good (g : Geom α) (h : noNil g = true)
   | bounds mn mx =>
     refine ⟨⟨.one 0, rfl, 0, rfl, rfl⟩, ?_⟩
     rintro s v vs ⟨i, rfl, h⟩
-    rcases i with _ | _ | _ | _ | i
-    · simp at h; exact ⟨.one 1, by simp [next, nextB, h.1], 1, rfl, by simp [h.2]⟩
-    · simp at h; exact ⟨.one 2, by simp [next, nextB, h.1], 2, rfl, by simp [h.2]⟩
-    · simp at h; exact ⟨.one 3, by simp [next, nextB, h.1], 3, rfl, by simp [h.2]⟩
-    · simp at h; exact ⟨.one 4, by simp [next, nextB, h.1], 4, rfl, by simp [h.2]⟩
-    · simp at h
+    by_cases hE : (decide (mx.x < mn.x) || decide (mx.y < mn.y)) = true
+    · simp [vertices, hE] at h
+    · have hv : vertices (.bounds mn mx) = [mn, ⟨mx.x, mn.y⟩, mx, ⟨mn.x, mx.y⟩] := by simp [vertices, hE]
+      rw [hv] at h
+      rcases i with _ | _ | _ | _ | i
+      · simp at h; exact ⟨.one 1, by simp [next, nextB, h.1], 1, rfl, by simp [hv, h.2]⟩
+      · simp at h; exact ⟨.one 2, by simp [next, nextB, h.1], 2, rfl, by simp [hv, h.2]⟩
+      · simp at h; exact ⟨.one 3, by simp [next, nextB, h.1], 3, rfl, by simp [hv, h.2]⟩
+      · simp at h; exact ⟨.one 4, by simp [next, nextB, h.1], 4, rfl, by simp [hv, h.2]⟩
+      · simp at h
   | collection gs =>
     have hL := goodL gs (by simpa [noNil] using h) hlen
     refine ⟨?_, ?_⟩
